@@ -70,6 +70,11 @@ type c32Ev struct {
 	N      int32       `json:"n,omitempty"`
 	Body   c32Chunk    `json:"body"`
 	Listed []c32Listed `json:"listed,omitempty"`
+	// Overlap: this session request is held inside its first S3 call (UploadPart /
+	// CompleteMultipartUpload) while the NEXT event's request is started on the same session;
+	// ExpireDuring: the session expires after this request finished, before the waiting one runs.
+	Overlap      bool `json:"overlap,omitempty"`
+	ExpireDuring bool `json:"expire_during,omitempty"`
 }
 type c32Case struct {
 	Events []c32Ev `json:"events"`
@@ -171,6 +176,36 @@ type c32S3 struct {
 	keys    []string // object keys in order of first appearance
 	faults  []bool   // faults for the S3 calls of the current request
 	nUp     int
+	gate    *c32Gate // armed: the next UploadPart / CompleteMultipartUpload waits for release
+}
+type c32Gate struct {
+	reached chan struct{}
+	release chan struct{}
+}
+
+func (f *c32S3) arm() *c32Gate {
+	g := &c32Gate{reached: make(chan struct{}), release: make(chan struct{})}
+	f.mu.Lock()
+	f.gate = g
+	f.mu.Unlock()
+	return g
+}
+func (f *c32S3) disarm() {
+	f.mu.Lock()
+	f.gate = nil
+	f.mu.Unlock()
+}
+
+// waitGate is called without f.mu held
+func (f *c32S3) waitGate() {
+	f.mu.Lock()
+	g := f.gate
+	f.gate = nil
+	f.mu.Unlock()
+	if g != nil {
+		close(g.reached)
+		<-g.release
+	}
 }
 
 func newC32S3() *c32S3 {
@@ -213,6 +248,7 @@ func (f *c32S3) CreateMultipartUpload(ctx context.Context, p *s3.CreateMultipart
 	return &s3.CreateMultipartUploadOutput{UploadId: aws.String(id)}, nil
 }
 func (f *c32S3) UploadPart(ctx context.Context, p *s3.UploadPartInput, _ ...func(*s3.Options)) (*s3.UploadPartOutput, error) {
+	f.waitGate()
 	f.mu.Lock()
 	defer f.mu.Unlock()
 	if f.fault() {
@@ -233,6 +269,7 @@ func (f *c32S3) UploadPart(ctx context.Context, p *s3.UploadPartInput, _ ...func
 	return &s3.UploadPartOutput{ETag: aws.String(etag)}, nil
 }
 func (f *c32S3) CompleteMultipartUpload(ctx context.Context, p *s3.CompleteMultipartUploadInput, _ ...func(*s3.Options)) (*s3.CompleteMultipartUploadOutput, error) {
+	f.waitGate()
 	f.mu.Lock()
 	defer f.mu.Unlock()
 	if f.fault() {
@@ -414,7 +451,6 @@ type c32Resp struct {
 	sumKind int // 0 empty, 1 matched (sumAlg,sumOf), 2 unknown
 }
 type c32Obs struct {
-	resps   []c32Resp
 	objects []struct {
 		id   int64
 		blob []c32Chunk
@@ -422,6 +458,14 @@ type c32Obs struct {
 	}
 	fail, failKey string
 	etagID        map[int32]int64 // part number -> id of the chunk whose ETag the session holds
+	listedIDs     map[int][]int64 // event index -> the chunk ids behind the ETags the completion request carried
+	steps         []c32Step       // the linearized history as model events
+}
+type c32Step struct {
+	kind string // req | arrive | run | expire
+	ev   int
+	idx  int
+	resp *c32Resp // nil: no response at this step
 }
 
 func c32CsumString(cs c32Csum, alg int) string {
@@ -473,25 +517,35 @@ func c32Run(t *testing.T, cs c32Case, br *c32Broker, deadAddr string) c32Obs {
 		}
 	}
 	sessionID := "nosuch"
+	var sessionPtr *uploadSession
 	etags := map[int32]string{}
 	var uploadedOK, validated []c32Chunk // parts acknowledged with 200 (new) / bodies that reached S3
-	for i, ev := range cs.Events {
+	obs.listedIDs = map[int][]int64{}
+
+	// prepare sets the fakes for a request and returns what absorb needs later
+	prepare := func(ev c32Ev) (string, int) {
+		fs3.mu.Lock()
 		fs3.faults = append([]bool(nil), ev.Faults...)
+		fs3.mu.Unlock()
 		reply := ev.Reply
 		if reply == "" {
 			reply = "code:0"
 		}
-		br.setMode(reply)
-		m.backends = []string{br.ln.Addr().String()}
-		if reply == "nobackend" {
-			m.backends = []string{deadAddr}
+		if ev.Kind == "produce" || ev.Kind == "complete" {
+			br.setMode(reply)
+			m.backends = []string{br.ln.Addr().String()}
+			if reply == "nobackend" {
+				m.backends = []string{deadAddr}
+			}
 		}
 		br.mu.Lock()
 		before := len(br.received)
 		br.mu.Unlock()
-		rr := httptest.NewRecorder()
+		return reply, before
+	}
+	// build creates the HTTP request (uses what the client knows at this moment)
+	build := func(i int, ev c32Ev) (*http.Request, func(http.ResponseWriter, *http.Request)) {
 		alg := c32AlgCode(ev.Alg)
-		var candidates [][]c32Chunk
 		switch ev.Kind {
 		case "produce":
 			body := c32BlobBytes(ev.Pieces)
@@ -504,21 +558,57 @@ func c32Run(t *testing.T, cs c32Case, br *c32Broker, deadAddr string) c32Obs {
 			if ev.Alg != "" {
 				req.Header.Set(lfsHeaderChecksumAlg, ev.Alg)
 			}
-			m.handleHTTPProduce(rr, req)
-			candidates = append(candidates, ev.Pieces)
+			return req, m.handleHTTPProduce
 		case "init":
 			body, _ := json.Marshal(lfsUploadInitRequest{Topic: "orders", ContentType: "application/octet-stream", SizeBytes: ev.Size, Checksum: c32CsumString(ev.Csum, alg), ChecksumAlg: ev.Alg})
-			req := httptest.NewRequest(http.MethodPost, "/lfs/uploads", bytes.NewReader(body))
-			m.handleHTTPUploadInit(rr, req)
+			return httptest.NewRequest(http.MethodPost, "/lfs/uploads", bytes.NewReader(body)), m.handleHTTPUploadInit
+		case "part":
+			return httptest.NewRequest(http.MethodPut, fmt.Sprintf("/lfs/uploads/%s/parts/%d", sessionID, ev.N), bytes.NewReader(c32Content(ev.Body))), m.handleHTTPUploadSession
+		case "complete":
+			var creq lfsUploadCompleteRequest
+			var ids []int64
+			for _, l := range ev.Listed {
+				e := l.Etag
+				id := int64(-7)
+				if e == "ok" {
+					e = etags[l.N]
+					id = -8
+					if x, ok := obs.etagID[l.N]; ok {
+						id = x
+					}
+				} else if e == "\"etag-0\"" {
+					id = 0
+				}
+				ids = append(ids, id)
+				creq.Parts = append(creq.Parts, struct {
+					PartNumber int32  `json:"part_number"`
+					ETag       string `json:"etag"`
+				}{l.N, e})
+			}
+			obs.listedIDs[i] = ids
+			body, _ := json.Marshal(creq)
+			return httptest.NewRequest(http.MethodPost, fmt.Sprintf("/lfs/uploads/%s/complete", sessionID), bytes.NewReader(body)), m.handleHTTPUploadSession
+		default: // abort
+			return httptest.NewRequest(http.MethodDelete, fmt.Sprintf("/lfs/uploads/%s", sessionID), nil), m.handleHTTPUploadSession
+		}
+	}
+	// absorb post-processes a finished request (in linearization order) and applies the oracle
+	absorb := func(i int, ev c32Ev, rr *httptest.ResponseRecorder, reply string, before int) c32Resp {
+		var candidates [][]c32Chunk
+		switch ev.Kind {
+		case "produce":
+			candidates = append(candidates, ev.Pieces)
+		case "init":
 			if rr.Code == 200 {
 				var resp lfsUploadInitResponse
 				_ = json.Unmarshal(rr.Body.Bytes(), &resp)
 				sessionID = resp.UploadID
+				m.uploadMu.Lock()
+				sessionPtr = m.uploadSessions[sessionID]
+				m.uploadMu.Unlock()
 			}
 		case "part":
 			_, had := etags[ev.N]
-			req := httptest.NewRequest(http.MethodPut, fmt.Sprintf("/lfs/uploads/%s/parts/%d", sessionID, ev.N), bytes.NewReader(c32Content(ev.Body)))
-			m.handleHTTPUploadSession(rr, req)
 			if rr.Code == 200 && !had {
 				var resp lfsUploadPartResponse
 				_ = json.Unmarshal(rr.Body.Bytes(), &resp)
@@ -530,24 +620,7 @@ func c32Run(t *testing.T, cs c32Case, br *c32Broker, deadAddr string) c32Obs {
 				validated = append(validated, ev.Body)
 			}
 		case "complete":
-			var creq lfsUploadCompleteRequest
-			for _, l := range ev.Listed {
-				e := l.Etag
-				if e == "ok" {
-					e = etags[l.N]
-				}
-				creq.Parts = append(creq.Parts, struct {
-					PartNumber int32  `json:"part_number"`
-					ETag       string `json:"etag"`
-				}{l.N, e})
-			}
-			body, _ := json.Marshal(creq)
-			req := httptest.NewRequest(http.MethodPost, fmt.Sprintf("/lfs/uploads/%s/complete", sessionID), bytes.NewReader(body))
-			m.handleHTTPUploadSession(rr, req)
 			candidates = append(candidates, uploadedOK, validated)
-		case "abort":
-			req := httptest.NewRequest(http.MethodDelete, fmt.Sprintf("/lfs/uploads/%s", sessionID), nil)
-			m.handleHTTPUploadSession(rr, req)
 		}
 		r := c32Resp{status: rr.Code}
 		if rr.Code == 200 && (ev.Kind == "produce" || ev.Kind == "complete") {
@@ -616,7 +689,96 @@ func c32Run(t *testing.T, cs c32Case, br *c32Broker, deadAddr string) c32Obs {
 				setFail("error-shape", fmt.Sprintf("event %d: status %d without an error body", i, rr.Code))
 			}
 		}
-		obs.resps = append(obs.resps, r)
+		return r
+	}
+	run1 := func(i int, ev c32Ev) c32Resp {
+		reply, before := prepare(ev)
+		req, h := build(i, ev)
+		rr := httptest.NewRecorder()
+		h(rr, req)
+		return absorb(i, ev, rr, reply, before)
+	}
+	addStep := func(kind string, ev int, idx int, r *c32Resp) {
+		obs.steps = append(obs.steps, c32Step{kind: kind, ev: ev, idx: idx, resp: r})
+	}
+	expire := func() {
+		if sessionPtr != nil {
+			sessionPtr.ExpiresAt = time.Now().UTC().Add(-time.Minute)
+		}
+	}
+	for i := 0; i < len(cs.Events); i++ {
+		ev := cs.Events[i]
+		if ev.Kind == "expire" {
+			expire()
+			addStep("expire", i, 0, nil)
+			continue
+		}
+		sessionEv := ev.Kind == "part" || ev.Kind == "complete" || ev.Kind == "abort"
+		if !(ev.Overlap && sessionEv && i+1 < len(cs.Events)) {
+			r := run1(i, ev)
+			addStep("req", i, 0, &r)
+			continue
+		}
+		nxt := cs.Events[i+1]
+		nxtSession := nxt.Kind == "part" || nxt.Kind == "complete" || nxt.Kind == "abort"
+		if !nxtSession || len(ev.Faults) > 0 || len(nxt.Faults) > 0 ||
+			(ev.Kind == "complete" && nxt.Kind == "complete" && ev.Reply != nxt.Reply) {
+			r := run1(i, ev)
+			addStep("req", i, 0, &r)
+			continue
+		}
+		// request A runs until its first gateable S3 call; request B is started meanwhile
+		replyA, beforeA := prepare(ev)
+		if nxt.Kind == "complete" {
+			replyA, _ = prepare(nxt) // the broker mode is the completing request's
+		}
+		reqA, hA := build(i, ev)
+		gate := fs3.arm()
+		rrA := httptest.NewRecorder()
+		doneA := make(chan struct{})
+		go func() { hA(rrA, reqA); close(doneA) }()
+		select {
+		case <-doneA: // A never reached S3: nothing overlaps
+			fs3.disarm()
+			r := absorb(i, ev, rrA, replyA, beforeA)
+			addStep("req", i, 0, &r)
+			continue
+		case <-gate.reached:
+		}
+		addStep("arrive", i, 0, nil)
+		reqB, hB := build(i+1, nxt)
+		rrB := httptest.NewRecorder()
+		doneB := make(chan struct{})
+		go func() { hB(rrB, reqB); close(doneB) }()
+		bEarly := false
+		select {
+		case <-doneB:
+			bEarly = true
+		case <-time.After(60 * time.Millisecond):
+		}
+		if bEarly {
+			// B was answered while A was still inside S3 (404/400 before the mutex on the real code)
+			rB := absorb(i+1, nxt, rrB, replyA, beforeA)
+			addStep("arrive", i+1, 0, &rB)
+			close(gate.release)
+			<-doneA
+			rA := absorb(i, ev, rrA, replyA, beforeA)
+			addStep("run", i, 0, &rA)
+		} else {
+			addStep("arrive", i+1, 0, nil)
+			close(gate.release)
+			<-doneA
+			rA := absorb(i, ev, rrA, replyA, beforeA)
+			addStep("run", i, 0, &rA)
+			if ev.ExpireDuring {
+				expire()
+				addStep("expire", i, 0, nil)
+			}
+			<-doneB
+			rB := absorb(i+1, nxt, rrB, replyA, beforeA)
+			addStep("run", i+1, 0, &rB)
+		}
+		i++
 	}
 	keys := make([]string, 0, len(fs3.objects))
 	for k := range fs3.objects {
@@ -679,6 +841,24 @@ func c32CoqBools(b []bool) string {
 	}
 	return cqList(it)
 }
+func c32CoqResp(r c32Resp) string {
+	env := "None"
+	if r.hasEnv {
+		sha := "[254]"
+		if r.shaOK {
+			sha = fmt.Sprintf("(henc 0 %s)", c32CoqBlob(r.shaOf))
+		}
+		sum := "[]"
+		if r.sumKind == 1 {
+			sum = fmt.Sprintf("(henc %d %s)", r.sumAlg, c32CoqBlob(r.sumOf))
+		} else if r.sumKind == 2 {
+			sum = "[254]"
+		}
+		env = fmt.Sprintf("(Some (mkEnv %s %s %s %s))", cqZ(r.keyID), cqZ(r.size), sha, sum)
+	}
+	return fmt.Sprintf("mkResp %d %s", r.status, env)
+}
+
 func c32Coq(cs c32Case, obs c32Obs) string {
 	evs := make([]string, len(cs.Events))
 	for i, ev := range cs.Events {
@@ -686,47 +866,43 @@ func c32Coq(cs c32Case, obs c32Obs) string {
 		f := len(ev.Faults) > 0 && ev.Faults[0]
 		switch ev.Kind {
 		case "produce":
-			evs[i] = fmt.Sprintf("EProduce %s %s %s %s %s", c32CoqBlob(ev.Pieces), c32CoqCsum(ev.Csum, alg), cqZ(int64(alg)), c32CoqBools(ev.Faults), c32CoqReply(ev.Reply))
+			evs[i] = fmt.Sprintf("(EProduce %s %s %s %s %s)", c32CoqBlob(ev.Pieces), c32CoqCsum(ev.Csum, alg), cqZ(int64(alg)), c32CoqBools(ev.Faults), c32CoqReply(ev.Reply))
 		case "init":
-			evs[i] = fmt.Sprintf("EInit %s %s %s %s", cqZ(ev.Size), c32CoqCsum(ev.Csum, alg), cqZ(int64(alg)), cqBool(f))
+			evs[i] = fmt.Sprintf("(EInit %s %s %s %s)", cqZ(ev.Size), c32CoqCsum(ev.Csum, alg), cqZ(int64(alg)), cqBool(f))
 		case "part":
-			evs[i] = fmt.Sprintf("EPart %s (%d, %d) %s", cqZ(int64(ev.N)), ev.Body.ID, ev.Body.Len, cqBool(f))
+			evs[i] = fmt.Sprintf("(EPart %s (%d, %d) %s)", cqZ(int64(ev.N)), ev.Body.ID, ev.Body.Len, cqBool(f))
 		case "complete":
 			ls := make([]string, len(ev.Listed))
+			ids := obs.listedIDs[i]
 			for j, l := range ev.Listed {
-				etag := int64(-7)
-				if l.Etag == "ok" {
-					etag = -8
-					if id, ok := obs.etagID[l.N]; ok {
-						etag = id
-					}
-				} else if l.Etag == "\"etag-0\"" {
-					etag = 0
+				id := int64(-8)
+				if j < len(ids) {
+					id = ids[j]
 				}
-				ls[j] = fmt.Sprintf("(%s, %s)", cqZ(int64(l.N)), cqZ(etag))
+				ls[j] = fmt.Sprintf("(%s, %s)", cqZ(int64(l.N)), cqZ(id))
 			}
-			evs[i] = fmt.Sprintf("EComplete %s %s %s", cqList(ls), cqBool(f), c32CoqReply(ev.Reply))
+			evs[i] = fmt.Sprintf("(EComplete %s %s %s)", cqList(ls), cqBool(f), c32CoqReply(ev.Reply))
 		case "abort":
 			evs[i] = "EAbort"
 		}
 	}
-	rs := make([]string, len(obs.resps))
-	for i, r := range obs.resps {
-		env := "None"
-		if r.hasEnv {
-			sha := "[254]"
-			if r.shaOK {
-				sha = fmt.Sprintf("(henc 0 %s)", c32CoqBlob(r.shaOf))
-			}
-			sum := "[]"
-			if r.sumKind == 1 {
-				sum = fmt.Sprintf("(henc %d %s)", r.sumAlg, c32CoqBlob(r.sumOf))
-			} else if r.sumKind == 2 {
-				sum = "[254]"
-			}
-			env = fmt.Sprintf("(Some (mkEnv %s %s %s %s))", cqZ(r.keyID), cqZ(r.size), sha, sum)
+	var cev, rs []string
+	for _, st := range obs.steps {
+		switch st.kind {
+		case "req":
+			cev = append(cev, "CReq "+evs[st.ev])
+		case "arrive":
+			cev = append(cev, "CArrive "+evs[st.ev])
+		case "run":
+			cev = append(cev, fmt.Sprintf("CRun %d", st.idx))
+		case "expire":
+			cev = append(cev, "CExpire")
 		}
-		rs[i] = fmt.Sprintf("mkResp %d %s", r.status, env)
+		if st.resp == nil {
+			rs = append(rs, "None")
+		} else {
+			rs = append(rs, "(Some ("+c32CoqResp(*st.resp)+"))")
+		}
 	}
 	objs := make([]string, len(obs.objects))
 	for i, o := range obs.objects {
@@ -736,7 +912,7 @@ func c32Coq(cs c32Case, obs c32Obs) string {
 		}
 		objs[i] = fmt.Sprintf("(%s, %s)", cqZ(o.id), b)
 	}
-	return fmt.Sprintf("mkCase %s %s %s", cqList(evs), cqList(rs), cqList(objs))
+	return fmt.Sprintf("mkCase %s %s %s", cqList(cev), cqList(rs), cqList(objs))
 }
 
 // ---------- generator ----------
@@ -910,6 +1086,47 @@ func (g *c32Gen) session() []c32Ev {
 	if g.r.Chance(15) {
 		evs = append(evs, c32Ev{Kind: []string{"abort", "part", "complete"}[g.r.Intn(3)], N: 1, Body: g.chunk(g.small()), Listed: exact()})
 	}
+	// overlapping requests on the session and expiry
+	if g.r.Chance(45) {
+		var out []c32Ev
+		for _, ev := range evs {
+			if len(ev.Faults) == 0 && ev.Kind == "part" && ev.Body.Len > 0 && g.r.Chance(25) {
+				ev.Overlap = true
+				ev.ExpireDuring = g.r.Chance(15)
+				out = append(out, ev)
+				switch g.r.Intn(5) {
+				case 0: // the same part again, same bytes (client retry while the first is in flight)
+					out = append(out, c32Ev{Kind: "part", N: ev.N, Body: ev.Body})
+				case 1: // the same part number with other bytes
+					out = append(out, c32Ev{Kind: "part", N: ev.N, Body: g.chunk(ev.Body.Len)})
+				case 2: // Complete racing with the PUT
+					out = append(out, c32Ev{Kind: "complete", Listed: exact(), Reply: g.reply()})
+				case 3:
+					out = append(out, c32Ev{Kind: "abort"})
+				}
+				continue
+			}
+			if len(ev.Faults) == 0 && ev.Kind == "complete" && g.r.Chance(25) {
+				ev.Overlap = true
+				ev.ExpireDuring = g.r.Chance(15)
+				out = append(out, ev)
+				switch g.r.Intn(4) {
+				case 0:
+					out = append(out, c32Ev{Kind: "part", N: 1, Body: g.chunk(g.small())})
+				case 1:
+					out = append(out, c32Ev{Kind: "complete", Listed: ev.Listed, Reply: ev.Reply})
+				case 2:
+					out = append(out, c32Ev{Kind: "abort"})
+				}
+				continue
+			}
+			out = append(out, ev)
+			if ev.Kind != "init" && g.r.Chance(3) {
+				out = append(out, c32Ev{Kind: "expire"})
+			}
+		}
+		evs = out
+	}
 	return evs
 }
 
@@ -930,7 +1147,7 @@ func c32GenCase(r *vRand) c32Case {
 }
 
 func TestVerifC32(t *testing.T) {
-	rep := vNewReport("C32", "generated event lists against the real LFS HTTP handlers: 0-3 single-request uploads (small / 5 MiB / 5 MiB+tail / empty bodies; checksum header right, wrong, of a prefix, upper case; algorithms sha256/md5/crc32/none/invalid; S3 call faults) and one multipart session (1-3 parts of 5 MiB.. plus a tail; S3 part failures with retry, out-of-order, duplicate, empty, undersized, surplus parts; completion lists exact / subset / reordered / duplicate / wrong ETag / unknown part / empty / last-only; repeated completion; abort), each upload completion with a broker reply drawn from {error code 0,1,3,6,7,10,19,87,-1, connection closed, unparseable, no partition, no backend}; a case is non-trivial when it contains a 200 completion with envelope and a rejected completion; distinct = distinct canonical JSON")
+	rep := vNewReport("C32", "generated event lists against the real LFS HTTP handlers: 0-3 single-request uploads (small / 5 MiB / 5 MiB+tail / empty bodies; checksum header right, wrong, of a prefix, upper case; algorithms sha256/md5/crc32/none/invalid; S3 call faults) and one multipart session (1-3 parts of 5 MiB.. plus a tail; S3 part failures with retry, out-of-order, duplicate, empty, undersized, surplus parts; completion lists exact / subset / reordered / duplicate / wrong ETag / unknown part / empty / last-only; repeated completion; abort; overlapping requests on the session: a part PUT held inside UploadPart or a Complete held inside CompleteMultipartUpload while a second PUT of the same number / Complete / Abort is started; session expiry between and during requests), each upload completion with a broker reply drawn from {error code 0,1,3,6,7,10,19,87,-1, connection closed, unparseable, no partition, no backend}; a case is non-trivial when it contains a 200 completion with envelope and a rejected completion; distinct = distinct canonical JSON")
 	br := newC32Broker(t)
 	defer br.ln.Close()
 	dead, _ := net.Listen("tcp", "127.0.0.1:0")
@@ -941,7 +1158,17 @@ func TestVerifC32(t *testing.T) {
 		obs := c32Run(t, cs, br, deadAddr)
 		canon, _ := json.Marshal(cs)
 		ok200, rejected := false, false
-		for i, r := range obs.resps {
+		for _, st := range obs.steps {
+			if st.kind == "arrive" && st.resp == nil {
+				rep.Hist("overlapped-request")
+			}
+			if st.kind == "expire" {
+				rep.Hist("expire")
+			}
+			if st.resp == nil {
+				continue
+			}
+			i, r := st.ev, *st.resp
 			k := cs.Events[i].Kind
 			rep.Hist(fmt.Sprintf("%s=%d", k, r.status))
 			if k == "produce" || k == "complete" {
@@ -997,6 +1224,16 @@ func TestVerifC32(t *testing.T) {
 			{Events: []c32Ev{{Kind: "init", Size: 5*c32MiB + 300}, {Kind: "part", N: 1, Body: p1}, {Kind: "part", N: 2, Body: p2}, {Kind: "complete", Listed: []c32Listed{{N: 2, Etag: "ok"}}}}},
 			// (c) S3 UploadPart fails once, the client retries the part
 			{Events: []c32Ev{{Kind: "init", Size: 100}, {Kind: "part", N: 1, Body: p3, Faults: []bool{true}}, {Kind: "part", N: 1, Body: p3}, {Kind: "complete", Listed: []c32Listed{{N: 1, Etag: "ok"}}}}},
+			// two PUTs of the same part in flight (the second started while the first is inside UploadPart), then Complete
+			{Events: []c32Ev{{Kind: "init", Size: 100}, {Kind: "part", N: 1, Body: p3, Overlap: true}, {Kind: "part", N: 1, Body: p3}, {Kind: "complete", Listed: []c32Listed{{N: 1, Etag: "ok"}}}}},
+			{Events: []c32Ev{{Kind: "init", Size: 100}, {Kind: "part", N: 1, Body: p3, Overlap: true}, {Kind: "part", N: 1, Body: c32Chunk{ID: 9, Len: 100}}, {Kind: "complete", Listed: []c32Listed{{N: 1, Etag: "ok"}}}}},
+			// a part PUT racing with Complete / Abort, and Complete racing with Complete
+			{Events: []c32Ev{{Kind: "init", Size: 5*c32MiB + 300}, {Kind: "part", N: 1, Body: p1}, {Kind: "part", N: 2, Body: p2, Overlap: true}, {Kind: "complete", Listed: []c32Listed{{N: 1, Etag: "ok"}, {N: 2, Etag: "ok"}}}, {Kind: "complete", Listed: []c32Listed{{N: 1, Etag: "ok"}, {N: 2, Etag: "ok"}}}}},
+			{Events: []c32Ev{{Kind: "init", Size: 100}, {Kind: "part", N: 1, Body: p3, Overlap: true}, {Kind: "abort"}, {Kind: "complete", Listed: []c32Listed{{N: 1, Etag: "ok"}}}}},
+			{Events: []c32Ev{{Kind: "init", Size: 100}, {Kind: "part", N: 1, Body: p3}, {Kind: "complete", Listed: []c32Listed{{N: 1, Etag: "ok"}}, Overlap: true}, {Kind: "complete", Listed: []c32Listed{{N: 1, Etag: "ok"}}}, {Kind: "part", N: 1, Body: p3}}},
+			// expiry: before a request, and while a request waits for the session mutex
+			{Events: []c32Ev{{Kind: "init", Size: 100}, {Kind: "part", N: 1, Body: p3}, {Kind: "expire"}, {Kind: "complete", Listed: []c32Listed{{N: 1, Etag: "ok"}}}}},
+			{Events: []c32Ev{{Kind: "init", Size: 100}, {Kind: "part", N: 1, Body: p3, Overlap: true, ExpireDuring: true}, {Kind: "complete", Listed: []c32Listed{{N: 1, Etag: "ok"}}}, {Kind: "abort"}}},
 			// well-behaved client
 			{Events: []c32Ev{{Kind: "init", Size: 5*c32MiB + 300, Csum: c32Csum{Kind: "blob", Blob: []c32Chunk{p1, p2}}}, {Kind: "part", N: 1, Body: p1}, {Kind: "part", N: 2, Body: p2}, {Kind: "complete", Listed: []c32Listed{{N: 1, Etag: "ok"}, {N: 2, Etag: "ok"}}}}},
 		}
